@@ -18,23 +18,31 @@ open Ply PlyLemmas PlyHeader PlyCompose
 
 variable {α : Type}
 
-/-- THE TRUSTED LAW OF THE FLOAT TEXT (Go `strconv`, as used by formats/ply):
-* `tokF`, `tokI`: `strconv.AppendFloat(v,'f',-1,64)` and `strconv.AppendInt(int64(v),10)` print a non-empty text without
-  white space;
-* `parse32_showF`: `strconv.ParseFloat(strconv.FormatFloat(v,'f',-1,64), 32)`, which is what EVERY ASCII vertex reader
-  calls whatever the declared type, returns the float32 image of `v` — the same value the binary `float` path stores and
-  reads (`float64(float32(v))`; the law ignores the double-rounding corner cases of parsing a shortest-float64 text at 32 bits);
-* `parse32_showI`: the integer text parses (at bit size 32) to SOME value `imgI v`; it is the float32 image of
-  `int64(v)`, NOT in general the binary `int` image (known finding C08 ascii-float32-precision);
+/-- THE TRUSTED LAW OF THE FLOAT TEXT (Go `strconv`, as used by formats/ply).  It asserts, for the number texts the writer
+prints (`showF v` = `strconv.AppendFloat(v,'f',-1,64)`, `showI v` = `strconv.AppendInt(int64(v),10)`) and the parser
+EVERY ASCII vertex reader calls whatever the declared type (`parseF s` = `strconv.ParseFloat(s, 32)` widened to float64):
+* `tokF`, `tokI`: the printed text is non-empty and contains no white space;
+* `parse32_showF`: `ParseFloat(FormatFloat(v,'f',-1,64), 32)` SUCCEEDS; its value is called `imgF v`.  Nothing more is
+  assumed of `imgF` here.  (For Go, `imgF v = float64(float32(v))` for every `v` that is not EXACTLY half-way between two
+  adjacent float32 values: the shortest round-tripping text lies within half a float64 ulp of `v`, hence on the same
+  side of every float32 rounding boundary, these boundaries being float64 values other than `v`.  At an exact half-way
+  value the text is rounded on its own: `v = 1 + 2⁻²⁴` prints as `1.0000000596046448` and parses at 32 bits to
+  `1 + 2⁻²³`, while `float32(v) = 1` — observation "ascii float32 tie", witness op
+  `c04.holds.ascii_float32_tie_witness`.  So the equation `imgF v = unf32 (f32 v)` is a GUARD of the agreement corollary
+  (`AgreeGuards`), not part of the law.)
+* `parse32_showI`: the integer text parses at bit size 32 to SOME value `imgI v` (for Go: the float32 image of
+  `int64(v)`, NOT in general the binary `int` image — known finding C08 ascii-float32-precision);
 * `parse32_showU8`: the texts `0 … 255` parse to those numbers;
 * `parse64_showF`: `strconv.ParseFloat(FormatFloat(v,'f',-1,64), 64) = v` (shortest round-trip text): the ASCII face
   reader keeps texture coordinates at float64 precision (the binary one narrows to float32).
 The driver's `Coding Float` instance is corresponded with strconv on every run; the law itself is not proved. -/
 structure GoFloatText (c : Coding α) where
+  inRange : α → Prop
+  imgF : α → α
   imgI : α → α
   tokF : ∀ v, Tok (c.showF v)
   tokI : ∀ v, Tok (c.showI v)
-  parse32_showF : ∀ v, c.parseF (c.showF v) = some (c.unf32 (c.f32 v))
+  parse32_showF : ∀ v, inRange v → c.parseF (c.showF v) = some (imgF v)
   parse32_showI : ∀ v, c.parseF (c.showI v) = some (imgI v)
   parse32_showU8 : ∀ n : Nat, n < 256 → c.parseF (showNat n) = some (c.ofInt n)
   parse64_showF : ∀ v, c.parseF64 (c.showF v) = some v
@@ -231,7 +239,7 @@ theorem encRecordAscii_toks (c : Coding α) (tys : List SType) (vals : List α) 
     simp [ht, bind, Except.bind, pure, Except.pure] at h
     exact ⟨toks, rfl, h.symm⟩
 
-theorem encScalarAscii_tok (c : Coding α) (L : GoFloatText c) (t : SType) (v : α) (tok : Bytes)
+theorem encScalarAscii_tok (c : Coding α) (L : GoFloatText c) (t : SType) (v : α) (hr : L.inRange v) (tok : Bytes)
     (h : encScalarAscii c t v = .ok tok) : Tok tok ∧ ∃ y, c.parseF tok = some y := by
   cases t <;> simp [encScalarAscii] at h <;> subst h
   · exact ⟨showNat_tok _, _, L.parse32_showU8 _ (c.u8 v).toNat_lt⟩
@@ -239,8 +247,8 @@ theorem encScalarAscii_tok (c : Coding α) (L : GoFloatText c) (t : SType) (v : 
   · exact ⟨L.tokI v, _, L.parse32_showI v⟩
   · exact ⟨L.tokI v, _, L.parse32_showI v⟩
   · exact ⟨L.tokI v, _, L.parse32_showI v⟩
-  · exact ⟨L.tokF v, _, L.parse32_showF v⟩
-  · exact ⟨L.tokF v, _, L.parse32_showF v⟩
+  · exact ⟨L.tokF v, _, L.parse32_showF v hr⟩
+  · exact ⟨L.tokF v, _, L.parse32_showF v hr⟩
 
 
 /-! ## one printed vertex line under the per-property readers -/
@@ -281,7 +289,7 @@ theorem readAscii_eq (c : Coding α) (b : Built) (toks : List Bytes) :
       pure (if b.ty = some .uchar then vals.map (c.norm8 b.names.length) else vals)) := rfl
 
 theorem readAscii_located (c : Coding α) (L : GoFloatText c) (tys : List SType) (vals : List α) (toks : List Bytes)
-    (hv : vals.length = tys.length)
+    (hv : vals.length = tys.length) (hr : ∀ x ∈ vals, L.inRange x)
     (ht : (tys.zip vals).mapM (fun (p : SType × α) => encScalarAscii c p.1 p.2) = .ok toks)
     (b : Built) (idxs : List Nat) (hl : LocatedA tys b idxs) :
     b.readAscii c toks = .ok (idxs.filterMap (fun i =>
@@ -299,7 +307,7 @@ theorem readAscii_located (c : Coding α) (L : GoFloatText c) (tys : List SType)
     have hiv : i < vals.length := by omega
     have hik : i < toks.length := by omega
     have henc := hat i hit hiv hik
-    obtain ⟨_, y, hy⟩ := encScalarAscii_tok c L _ _ _ henc
+    obtain ⟨_, y, hy⟩ := encScalarAscii_tok c L _ _ (hr _ (List.getElem_mem hiv)) _ henc
     refine ⟨y, by simp [colRead, List.getElem?_eq_getElem hik, hy], ?_⟩
     simp only [List.getElem?_eq_getElem hit, List.getElem?_eq_getElem hiv, quant, henc, hy, Option.map_some]
     by_cases hu : tys[i] = .uchar
@@ -333,17 +341,18 @@ theorem writer_vertex_block_ascii (c : Coding α) (L : GoFloatText c) (tys : Lis
     (bl : List (Built × List Nat)) (hbl : ∀ p ∈ bl, LocatedA tys p.1 p.2) :
     ∀ (recs : List (List α)) (encs : List Bytes),
       All2 (fun vals rec => encRecordAscii c tys vals = .ok rec) recs encs →
-      (∀ vals ∈ recs, vals.length = tys.length) →
+      (∀ vals ∈ recs, vals.length = tys.length) → (∀ vals ∈ recs, ∀ x ∈ vals, L.inRange x) →
       ∃ vlines, encs.flatten = flatLines vlines ∧ (∀ l ∈ vlines, PLine l) ∧
         ∀ rest, readVertsAscii c tys.length (bl.map (·.1)) recs.length (vlines ++ rest)
           = .ok (recs.map (rowOfA c tys bl), rest) := by
   intro recs encs hall
   induction hall with
-  | nil => intro _; exact ⟨[], rfl, by simp, fun rest => by simp [readVertsAscii]⟩
+  | nil => intro _ _; exact ⟨[], rfl, by simp, fun rest => by simp [readVertsAscii]⟩
   | @cons vals rec recs encs hxy _ ih =>
-    intro hlen
+    intro hlen hrange
     have hv := hlen vals (by simp)
-    obtain ⟨vlines, h1, h2, h3⟩ := ih (fun v hv' => hlen v (by simp [hv']))
+    have hrv := hrange vals (by simp)
+    obtain ⟨vlines, h1, h2, h3⟩ := ih (fun v hv' => hlen v (by simp [hv'])) (fun v hv' => hrange v (by simp [hv']))
     obtain ⟨toks, htoks, hrec⟩ := encRecordAscii_toks c tys vals rec hxy
     obtain ⟨htl, hat⟩ := toks_at c tys vals toks hv htoks
     have htne : toks ≠ [] := by
@@ -351,7 +360,7 @@ theorem writer_vertex_block_ascii (c : Coding α) (L : GoFloatText c) (tys : Lis
     have htok : ∀ t ∈ toks, Tok t := by
       intro t ht
       obtain ⟨i, hi, rfl⟩ := List.getElem_of_mem ht
-      exact (encScalarAscii_tok c L _ _ _ (hat i (by omega) (by omega) hi)).1
+      exact (encScalarAscii_tok c L _ _ (hrv _ (List.getElem_mem _)) _ (hat i (by omega) (by omega) hi)).1
     obtain ⟨hpl, hfl⟩ := token_line toks htne htok
     simp only [htne, if_false] at hrec
     refine ⟨intercalate sp toks :: vlines, ?_, ?_, ?_⟩
@@ -365,7 +374,7 @@ theorem writer_vertex_block_ascii (c : Coding α) (L : GoFloatText c) (tys : Lis
         induction bl with
         | nil => simp [rowOfA, pure, Except.pure]
         | cons p bl ihb =>
-          have hp := readAscii_located c L tys vals toks hv htoks p.1 p.2 (hbl p (by simp))
+          have hp := readAscii_located c L tys vals toks hv hrv htoks p.1 p.2 (hbl p (by simp))
           have h2' := ihb (fun q hq => hbl q (by simp [hq]))
           simp only [rowOfA] at h2' ⊢
           simp [List.mapM_cons, hp, h2', bind, Except.bind, pure, Except.pure]
@@ -592,10 +601,44 @@ theorem idxOk_of_wf (m : MeshVal α) (hwf : m.WF = true) (hsize : m.attrLen ≤ 
   have e2 : ((f.idx.2.2.toNat : Nat) : Int) = f.idx.2.2 := by omega
   rw [e0, e1, e2]
 
+/-- every attribute value of the mesh prints to a text the 32-bit parser accepts (`GoFloatText.inRange`; only the values
+printed by `float` / `double` vertex writers matter, the guard asks it of all of them) -/
+def InRangeMesh {c : Coding α} (L : GoFloatText c) (m : MeshVal α) : Prop := ∀ a ∈ m.attrs, ∀ comps ∈ a.data, ∀ v ∈ comps, L.inRange v
+
+theorem vertexRecord_mem (m : MeshVal α) (ws : List WProp) (i : Nat) (vals : List α)
+    (h : vertexRecord m ws i = .ok vals) : ∀ x ∈ vals, ∃ a ∈ m.attrs, ∃ comps ∈ a.data, x ∈ comps := by
+  simp only [vertexRecord] at h
+  cases hp : ws.mapM (fun w => writerValues m w i) with
+  | error e => simp [hp, bind, Except.bind] at h
+  | ok parts =>
+    simp [hp, bind, Except.bind, pure, Except.pure] at h
+    subst h
+    have hall := mapM_ok_forall₂ _ _ _ hp
+    intro x hx
+    obtain ⟨p, hpm, hxp⟩ := List.mem_flatten.mp hx
+    clear hp hx
+    induction hall with
+    | nil => simp at hpm
+    | @cons w p0 ws' parts' h0 _ ih =>
+      simp only [List.mem_cons] at hpm
+      rcases hpm with rfl | hpm
+      · simp only [writerValues] at h0
+        cases hfa : m.find w.dim w.attr with
+        | none => simp [hfa] at h0
+        | some a =>
+          cases hd : a.data[i]? with
+          | none => simp [hfa, hd] at h0
+          | some comps =>
+            simp [hfa, hd] at h0
+            subst h0
+            exact ⟨a, (find_mem m _ _ a hfa).1, comps, List.mem_of_getElem? hd, hxp⟩
+      · exact ih hpm
+
 /-- STAGES 1+2, ASCII: reading back a printed body yields exactly these arrays and this index / UV list -/
 theorem readBody_writeBody_arrays_ascii (c : Coding α) (L : GoFloatText c) (cfg : WriterCfg) (m : MeshVal α) (body : Bytes)
     (hf : cfg.format = .ascii) (hwf : m.WF = true) (h : writeBody c cfg m = .ok body)
     (htys : m.attrLen = 0 ∨ writerTypes (selectWriters cfg m) ≠ []) (hsize : m.attrLen ≤ 2 ^ 31)
+    (hrange : InRangeMesh L m)
     (bl : List (Built × List Nat))
     (hbuilt : bl.map (·.1) = buildAll false (headerProps (selectWriters cfg m)) defaultReaders true)
     (hloc : ∀ p ∈ bl, LocatedA (writerTypes (selectWriters cfg m)) p.1 p.2) :
@@ -623,7 +666,14 @@ theorem readBody_writeBody_arrays_ascii (c : Coding α) (L : GoFloatText c) (cfg
       subst this
       cases hall
       exact ⟨[], rfl, by simp, fun rest => by simp [readVertsAscii]⟩
-    · exact writer_vertex_block_ascii c L _ hne bl hloc recs vbytes hall hvl
+    · refine writer_vertex_block_ascii c L _ hne bl hloc recs vbytes hall hvl ?_
+      have hrm : ∀ vals ∈ recs, ∃ i, vertexRecord m (selectWriters cfg m) i = .ok vals :=
+        All2.forall_right (Q := fun r => ∃ i, vertexRecord m (selectWriters cfg m) i = .ok r)
+          (fun i r hir => ⟨i, hir⟩) hrl
+      intro vals hvals x hx
+      obtain ⟨i, hi⟩ := hrm vals hvals
+      obtain ⟨a, ha, comps, hc, hxc⟩ := vertexRecord_mem m _ i vals hi x hx
+      exact hrange a ha comps hc x hxc
   have hfmt : (writeHeader cfg m).format = .ascii := hf
   have hve : findElement (writeHeader cfg m) defaultReader.attributeElement
       = some ⟨nm "vertex", m.attrLen, ((selectWriters cfg m).map WProp.props).flatten⟩ := findElement_vertex cfg m
@@ -793,16 +843,47 @@ theorem roundTrips_unwelded [BEq α] [LawfulBEq α] (c : Coding α) (cfg : Write
 
 /-! ## ASCII: the arrays are the right ones -/
 
+theorem mapM_some_map_mem {β γ : Type} (q : β → Option γ) (g : β → γ) :
+    ∀ (l : List β), (∀ x ∈ l, q x = some (g x)) → l.mapM q = some (l.map g) := by
+  intro l
+  induction l with
+  | nil => intro _; rfl
+  | cons x l ih =>
+    intro h
+    simp [List.mapM_cons, h x (by simp), ih (fun y hy => h y (by simp [hy]))]
+
+theorem gather_mem {β : Type} (data : List β) (idx : List Int) (out : List β) (h : gather data idx = .ok out) :
+    ∀ x ∈ out, x ∈ data := by
+  rw [gather_eq_mapM] at h
+  have hall := mapM_ok_forall₂ _ _ _ h
+  clear h
+  induction hall with
+  | nil => intro x hx; simp at hx
+  | @cons i y is ys hxy _ ih =>
+    intro x hx
+    simp only [List.mem_cons] at hx
+    rcases hx with rfl | hx
+    · simp only [atIdx] at hxy
+      split at hxy
+      · simp at hxy
+      · split at hxy
+        · rename_i x' hx'
+          simp at hxy
+          subst hxy
+          exact List.mem_of_getElem? hx'
+        · simp at hxy
+    · exact ih x hx
+
 /-- the value an ASCII-printed scalar of type `t` reads back as (under the law of the float text) -/
 def quantA (c : Coding α) (L : GoFloatText c) (dim : Nat) : SType → α → α
   | .uchar, v => c.norm8 dim (c.ofInt (c.u8 v).toNat)
-  | .float, v => c.unf32 (c.f32 v)
-  | .double, v => c.unf32 (c.f32 v)
+  | .float, v => L.imgF v
+  | .double, v => L.imgF v
   | _, v => L.imgI v
 
-theorem quant_ascii_some (c : Coding α) (L : GoFloatText c) (dim : Nat) (t : SType) (ht : t ≠ .char) (v : α) :
-    quant c .ascii dim t v = some (quantA c L dim t v) := by
-  cases t <;> simp_all [quant, encScalarAscii, quantA, L.parse32_showF, L.parse32_showI,
+theorem quant_ascii_some (c : Coding α) (L : GoFloatText c) (dim : Nat) (t : SType) (ht : t ≠ .char) (v : α)
+    (hr : L.inRange v) : quant c .ascii dim t v = some (quantA c L dim t v) := by
+  cases t <;> simp_all [quant, encScalarAscii, quantA, L.parse32_showF v hr, L.parse32_showI,
     L.parse32_showU8 _ (c.u8 v).toNat_lt]
 
 theorem record_at_gen (m : MeshVal α) (hwf : m.WF = true) (v : Nat) (ws : List WProp) (vals : List α)
@@ -810,7 +891,7 @@ theorem record_at_gen (m : MeshVal α) (hwf : m.WF = true) (v : Nat) (ws : List 
     (w : WProp) (hw : w ∈ ws) (comps : List α) (hwv : writerValues m w v = .ok comps)
     (idxs : List Nat) (hlen : idxs.length = w.names.length)
     (hidx : ∀ k (hk : k < idxs.length) (hk' : k < w.names.length), ((headerProps ws)[idxs[k]]?).map (·.1) = some w.names[k])
-    (F : SType → α → Option α) (G : α → α) (hF : ∀ x, F w.ty x = some (G x)) :
+    (F : SType → α → Option α) (G : α → α) (hF : ∀ x ∈ comps, F w.ty x = some (G x)) :
     idxs.filterMap (fun i =>
         match (writerTypes ws)[i]?, vals[i]? with
         | some t, some x => F t x
@@ -850,7 +931,7 @@ theorem record_at_gen (m : MeshVal α) (hwf : m.WF = true) (v : Nat) (ws : List 
         rw [hii] at h1 h2
         have hty : (writerTypes ws)[idxs[k]]? = some w.ty := by
           rw [← headerProps_types, List.getElem?_map, h1]; rfl
-        simp [hty, h2, hF]
+        simp [hty, h2, hF _ (List.getElem_mem hk')]
 
 /-- ASCII readers located where their names are -/
 structure LocatedNamedA (props : List (Bytes × SType)) (b : Built) (idxs : List Nat) : Prop where
@@ -870,7 +951,7 @@ theorem column_of_writer_ascii (c : Coding α) (L : GoFloatText c) (m : MeshVal 
     (hrecs : (List.range m.attrLen).mapM (vertexRecord m ws) = .ok recs)
     (w : WProp) (hw : w ∈ ws) (hty : w.ty ≠ .char) (a : Attr α) (ha : m.find w.dim w.attr = some a)
     (bl : List (Built × List Nat)) (j : Nat) (hj : j < bl.length) (hnames : bl[j].1.names = w.names)
-    (hln : LocatedNamedA (headerProps ws) bl[j].1 bl[j].2) :
+    (hln : LocatedNamedA (headerProps ws) bl[j].1 bl[j].2) (hrange : InRangeMesh L m) :
     recs.map (fun vals => (rowOfA c (writerTypes ws) bl vals).getD j [])
       = a.data.map (List.map (quantA c L w.dim w.ty)) := by
   have hall := mapM_ok_forall₂ _ _ _ hrecs
@@ -891,7 +972,7 @@ theorem column_of_writer_ascii (c : Coding α) (L : GoFloatText c) (m : MeshVal 
       (fun k hk hk' => by
         have := hln.named k hk (by rw [hnames]; exact hk')
         simpa [hnames] using this) (quant c .ascii w.dim) (quantA c L w.dim w.ty)
-      (fun x => quant_ascii_some c L w.dim w.ty hty x)
+      (fun x hx => quant_ascii_some c L w.dim w.ty hty x (hrange a hmem _ (List.getElem_mem hv') x hx))
     simp only [List.getElem_map, rowOfA, List.getD_eq_getElem?_getD, List.getElem?_map,
       List.getElem?_eq_getElem hj, Option.map_some, Option.getD_some]
     have hdimeq : bl[j].1.names.length = w.dim := by rw [hnames]; rfl
@@ -980,7 +1061,7 @@ theorem delivers_ascii [BEq α] (c : Coding α) (L : GoFloatText c) (cfg : Write
     (hnd : ((headerProps (selectWriters cfg m)).map (·.1)).Nodup)
     (bl : List (Built × List Nat)) (hcl : ClaimOKA cfg m bl) (recs : List (List α))
     (hrecs : (List.range m.attrLen).mapM (vertexRecord m (selectWriters cfg m)) = .ok recs)
-    (hemp : m.indices ≠ []) :
+    (hemp : m.indices ≠ []) (hrange : InRangeMesh L m) :
     Delivers c cfg m (bl.map (·.1)) (recs.map (rowOfA c (writerTypes (selectWriters cfg m)) bl))
       (fun w => quantA c L w.dim w.ty) := by
   intro base w hws hcb
@@ -1014,7 +1095,7 @@ theorem delivers_ascii [BEq α] (c : Coding α) (L : GoFloatText c) (cfg : Write
   have hty := written_type_ascii c m hwf _ _ _ 0 hr0 henc0 w hws (comesBack_names_ne w hcb)
   obtain ⟨j, hj, hattr, hnames, hlastj⟩ := hcl.demanded w hws hcb
   have hcol := column_of_writer_ascii c L m hwf _ hnd recs' hrecs w hws hty a ha bl j hj hnames
-    (hcl.located _ (List.getElem_mem hj))
+    (hcl.located _ (List.getElem_mem hj)) hrange
   have hj' : j < (bl.map (·.1)).length := by simpa using hj
   have hrows : recs'.map (rowOfA c (writerTypes (selectWriters cfg m)) bl) ≠ [] := by
     cases hr : recs' with
@@ -1035,10 +1116,11 @@ theorem delivers_ascii [BEq α] (c : Coding α) (L : GoFloatText c) (cfg : Write
     have hal : a.data.length = m.attrLen := WF_len m hwf a hmem
     exact ⟨this.1, by omega⟩)
   refine ⟨a, orig, ha, hfindb, ho, ?_⟩
-  apply mapM_some_map
-  intro comps
+  apply mapM_some_map_mem
+  intro comps hc
   rw [hf]
-  exact mapM_some_map _ _ (fun x => quant_ascii_some c L w.dim w.ty hty x) comps
+  exact mapM_some_map_mem _ _ comps
+    (fun x hx => quant_ascii_some c L w.dim w.ty hty x (hrange a hmem comps (gather_mem _ _ _ ho comps hc) x hx))
 
 
 theorem faceUVA_nil (fs : List (WFace α)) (h : ∀ f ∈ fs, UvOk false f) : (fs.map faceUVA).flatten = [] := by
@@ -1057,7 +1139,7 @@ theorem readback_ascii [BEq α] [LawfulBEq α] (c : Coding α) (L : GoFloatText 
     (body : Bytes) (hf : cfg.format = .ascii) (hwf : m.WF = true) (h : writeBody c cfg m = .ok body)
     (htys : m.attrLen = 0 ∨ writerTypes (selectWriters cfg m) ≠ [])
     (hpoint : m.topo = .point → m.indices = (List.range m.attrLen).map Int.ofNat)
-    (hsize : m.attrLen ≤ 2 ^ 31)
+    (hsize : m.attrLen ≤ 2 ^ 31) (hrange : InRangeMesh L m)
     (bl : List (Built × List Nat)) (hcl : ClaimOKA cfg m bl) :
     ∃ back, readBody c defaultReader (writeHeader cfg m) body = .ok back ∧ RoundTrips c cfg m back = true := by
   have hnd := (names_of_writeBody_ok c cfg m body h).2
@@ -1065,9 +1147,9 @@ theorem readback_ascii [BEq α] [LawfulBEq α] (c : Coding α) (L : GoFloatText 
     intro p hp
     have := (hcl.located p hp).loc
     rwa [headerProps_types] at this
-  obtain ⟨recs, hrecs, hpt, htr⟩ := readBody_writeBody_arrays_ascii c L cfg m body hf hwf h htys hsize bl hcl.built hloc
+  obtain ⟨recs, hrecs, hpt, htr⟩ := readBody_writeBody_arrays_ascii c L cfg m body hf hwf h htys hsize hrange bl hcl.built hloc
   have hrl : recs.length = m.attrLen := by simpa using (mapM_ok_forall₂ _ _ _ hrecs).length_eq
-  have hdel := fun hemp => delivers_ascii c L cfg m body hf hwf h hnd bl hcl recs hrecs hemp
+  have hdel := fun hemp => delivers_ascii c L cfg m body hf hwf h hnd bl hcl recs hrecs hemp hrange
   by_cases ht : m.topo = .triangle
   · obtain ⟨tris, fs, hc, hfs, hread⟩ := htr ht
     obtain ⟨hidx, huv⟩ := faceRecords_shape m hwf tris fs hfs
@@ -1102,6 +1184,265 @@ theorem readback_ascii [BEq α] [LawfulBEq α] (c : Coding α) (L : GoFloatText 
       (recs.map (rowOfA c (writerTypes (selectWriters cfg m)) bl)), by simp [assemble, hp, hpoint hp, pure, Except.pure], ?_⟩
     exact roundTrips_welded c cfg m (by simp [ht]) (bl.map (·.1))
       (recs.map (rowOfA c (writerTypes (selectWriters cfg m)) bl)) (fun w => quantA c L w.dim w.ty) hdel
+
+
+/-! ## the ASCII claim stage, checked -/
+
+def locatedNamedAB (props : List (Bytes × SType)) (b : Built) (idxs : List Nat) : Bool :=
+  b.offs == idxs &&
+  idxs.all (fun i => match props[i]? with
+    | none => false
+    | some p => (b.ty == some .uchar) == (p.2 == .uchar)) &&
+  idxs.length == b.names.length &&
+  (idxs.zip b.names).all (fun x => (props[x.1]?).map (·.1) == some x.2)
+
+theorem locatedNamedAB_sound (props : List (Bytes × SType)) (b : Built) (idxs : List Nat)
+    (h : locatedNamedAB props b idxs = true) : LocatedNamedA props b idxs := by
+  simp only [locatedNamedAB, Bool.and_eq_true, List.all_eq_true, beq_iff_eq] at h
+  obtain ⟨⟨⟨h1, h2⟩, h3⟩, h4⟩ := h
+  refine ⟨⟨h1, ?_⟩, h3, ?_⟩
+  · intro i hi
+    have := h2 i hi
+    cases hp : props[i]? with
+    | none => simp [hp] at this
+    | some p =>
+      obtain ⟨hi', hpe⟩ := List.getElem?_eq_some_iff.mp hp
+      simp only [hp] at this
+      refine ⟨by simpa using hi', ?_⟩
+      simp only [List.getElem_map, hpe]
+      constructor
+      · intro hb; have hb' : (b.ty == some SType.uchar) = true := by simp [hb]
+        rw [hb'] at this; simpa using this.symm
+      · intro hu; have hu' : (p.2 == SType.uchar) = true := by simp [hu]
+        rw [hu'] at this; simpa using this
+  · intro k hk hk'
+    have hmem : (idxs[k], b.names[k]) ∈ idxs.zip b.names := by
+      have : (idxs.zip b.names)[k]'(by simp; omega) = (idxs[k], b.names[k]) := by simp
+      rw [← this]; exact List.getElem_mem _
+    exact h4 _ hmem
+
+def claimCheckA (cfg : WriterCfg) (m : MeshVal α) : Option (List (Built × List Nat)) :=
+  let props := headerProps (selectWriters cfg m)
+  let bl := (buildAll false props defaultReaders true).map (fun b => (b, b.names.map (posOf props)))
+  if bl.all (fun p => locatedNamedAB props p.1 p.2) && demandedB (selectWriters cfg m) bl then some bl else none
+
+theorem claimCheckA_sound (cfg : WriterCfg) (m : MeshVal α) (bl : List (Built × List Nat))
+    (h : claimCheckA cfg m = some bl) : ClaimOKA cfg m bl := by
+  simp only [claimCheckA] at h
+  split at h
+  · rename_i hc
+    simp at h
+    subst h
+    simp only [Bool.and_eq_true, List.all_eq_true] at hc
+    obtain ⟨hl, hd⟩ := hc
+    refine ⟨by simp [Function.comp_def], fun p hp => locatedNamedAB_sound _ _ _ (hl p hp), ?_⟩
+    intro w hw hcb
+    simp only [demandedB, List.all_eq_true] at hd
+    have := hd w hw
+    simp only [hcb, Bool.not_true, Bool.false_or, List.any_eq_true, List.mem_range] at this
+    obtain ⟨j, hj, hjj⟩ := this
+    rw [List.getElem?_eq_getElem hj] at hjj
+    simp only [Bool.and_eq_true, beq_iff_eq, List.all_eq_true, List.mem_range] at hjj
+    obtain ⟨⟨ha, hn⟩, hlast⟩ := hjj
+    refine ⟨j, hj, ha, hn, ?_⟩
+    intro j' hj' hlt
+    have := hlast j' hj'
+    rw [List.getElem?_eq_getElem hj'] at this
+    simpa [hlt] using this
+  · simp at h
+
+/-- a concrete coding satisfying the law of the float text ("float32" keeps a natural mod 2³², and so does the 32-bit parser) -/
+def toyCodingA : Coding Nat := { toyCoding with parseF := fun s => (parseDigits s 0).map (fun n => n % 2 ^ 32) }
+
+def toyLaw : GoFloatText toyCodingA where
+  inRange := fun _ => True
+  imgF := fun v => v % 2 ^ 32
+  imgI := fun v => v % 2 ^ 32
+  tokF := fun v => showNat_tok v
+  tokI := fun v => showNat_tok v
+  parse32_showF := by
+    intro v _
+    obtain ⟨ds, hds, _, hp⟩ := showNat_spec v
+    show (parseDigits (showNat v) 0).map (fun n => n % 2 ^ 32) = some (v % 2 ^ 32)
+    rw [hds, hp]; rfl
+  parse32_showI := by
+    intro v
+    obtain ⟨ds, hds, _, hp⟩ := showNat_spec v
+    show (parseDigits (showNat v) 0).map (fun n => n % 2 ^ 32) = some (v % 2 ^ 32)
+    rw [hds, hp]; rfl
+  parse32_showU8 := by
+    intro n hn
+    obtain ⟨ds, hds, _, hp⟩ := showNat_spec n
+    show (parseDigits (showNat n) 0).map (fun n => n % 2 ^ 32) = some ((n : Int).toNat)
+    rw [hds, hp]; simp; omega
+  parse64_showF := by
+    intro v
+    obtain ⟨ds, hds, _, hp⟩ := showNat_spec v
+    show parseDigits (showNat v) 0 = some v
+    rw [hds, hp]
+
+
+/-! ## the three encodings agree: generic part -/
+
+theorem cornerVals_mem (m : MeshVal α) (dim : Nat) (name : Bytes) (orig : List (List α))
+    (h : cornerVals m dim name = some orig) :
+    ∀ comps ∈ orig, ∃ a, m.find dim name = some a ∧ comps ∈ a.data := by
+  intro comps hc
+  simp only [cornerVals] at h
+  split at h
+  · simp at h; subst h; simp at hc
+  · split at h
+    · simp at h
+    · rename_i a ha
+      cases hg : gather a.data m.indices with
+      | error e => simp [hg, Except.toOption] at h
+      | ok out =>
+        simp [hg, Except.toOption] at h
+        subst h
+        exact ⟨a, ha, gather_mem _ _ _ hg comps hc⟩
+
+theorem mapM_option_congr {β γ : Type} (f g : β → Option γ) : ∀ (xs : List β), (∀ x ∈ xs, f x = g x) →
+    xs.mapM f = xs.mapM g := by
+  intro xs
+  induction xs with
+  | nil => intro _; rfl
+  | cons x xs ih =>
+    intro h
+    simp only [List.mapM_cons]
+    rw [h x (by simp), ih (fun y hy => h y (by simp [hy]))]
+
+/-- the content `RoundTrips` speaks about is the same in two meshes -/
+def SameContent (cfg : WriterCfg) (m a b : MeshVal α) : Prop :=
+  a.topo = b.topo ∧ primCount a = primCount b ∧
+  (∀ w ∈ selectWriters cfg m, comesBack w = true → ¬ (m.topo = .triangle ∧ w.dim = 2 ∧ w.attr = texCoordAttr) →
+    ∃ vals, cornerVals a w.dim w.attr = some vals ∧ cornerVals b w.dim w.attr = some vals) ∧
+  (m.topo = .triangle → hasTexCoord m = true →
+    ∃ vals, cornerVals a 2 texCoordAttr = some vals ∧ cornerVals b 2 texCoordAttr = some vals)
+
+theorem sameContent_of_roundTrips [BEq α] [LawfulBEq α] (c : Coding α) (cfg₁ cfg₂ : WriterCfg) (m a b : MeshVal α)
+    (hsel : selectWriters cfg₂ m = selectWriters cfg₁ m)
+    (h₁ : RoundTrips c cfg₁ m a = true) (h₂ : RoundTrips c cfg₂ m b = true)
+    (hq : ∀ w ∈ selectWriters cfg₁ m, comesBack w = true → ∀ at', m.find w.dim w.attr = some at' →
+      ∀ comps ∈ at'.data, ∀ v ∈ comps, quant c cfg₁.format w.dim w.ty v = quant c cfg₂.format w.dim w.ty v)
+    (huv : m.topo = .triangle → ∀ at', m.find 2 texCoordAttr = some at' →
+      ∀ comps ∈ at'.data, ∀ v ∈ comps, quantUV c cfg₁.format v = quantUV c cfg₂.format v) :
+    SameContent cfg₁ m a b := by
+  simp only [RoundTrips, Bool.and_eq_true, List.all_eq_true, decide_eq_true_eq, hsel] at h₁ h₂
+  obtain ⟨⟨⟨ht1, hp1⟩, hw1⟩, hu1⟩ := h₁
+  obtain ⟨⟨⟨ht2, hp2⟩, hw2⟩, hu2⟩ := h₂
+  refine ⟨by rw [ht1, ht2], by rw [hp1, hp2], ?_, ?_⟩
+  · intro w hw hcb hnt
+    have hmem : w ∈ (selectWriters cfg₁ m).filter
+        (fun w => comesBack w && !(m.topo = .triangle && w.dim = 2 && w.attr = texCoordAttr)) := by
+      simp only [List.mem_filter, hw, hcb, true_and, Bool.true_and, Bool.not_eq_true', Bool.and_eq_false_iff,
+        decide_eq_false_iff_not]
+      by_cases h1 : m.topo = .triangle
+      · by_cases h2 : w.dim = 2
+        · exact Or.inr (fun h3 => hnt ⟨h1, h2, h3⟩)
+        · exact Or.inl (Or.inr h2)
+      · exact Or.inl (Or.inl h1)
+    have e1 := hw1 w hmem
+    have e2 := hw2 w hmem
+    cases ho : cornerVals m w.dim w.attr with
+    | none => simp [ho] at e1
+    | some orig =>
+      cases hga : cornerVals a w.dim w.attr with
+      | none => simp [ho, hga] at e1
+      | some ga =>
+        cases hgb : cornerVals b w.dim w.attr with
+        | none => simp [ho, hgb] at e2
+        | some gb =>
+          simp only [ho, hga, hgb, beq_iff_eq] at e1 e2
+          have hmm : orig.mapM (fun comps => comps.mapM (quant c cfg₁.format w.dim w.ty))
+              = orig.mapM (fun comps => comps.mapM (quant c cfg₂.format w.dim w.ty)) := by
+            apply mapM_option_congr
+            intro comps hc
+            obtain ⟨at', hat, hin⟩ := cornerVals_mem m _ _ orig ho comps hc
+            apply mapM_option_congr
+            intro v hv
+            exact hq w hw hcb at' hat comps hin v hv
+          rw [hmm, e2] at e1
+          simp at e1
+          exact ⟨ga, rfl, by rw [e1]⟩
+  · intro htri htc
+    simp only [htri, htc, if_true, and_self] at hu1 hu2
+    cases ho : cornerVals m 2 texCoordAttr with
+    | none => simp [ho] at hu1
+    | some orig =>
+      cases hga : cornerVals a 2 texCoordAttr with
+      | none => simp [ho, hga] at hu1
+      | some ga =>
+        cases hgb : cornerVals b 2 texCoordAttr with
+        | none => simp [ho, hgb] at hu2
+        | some gb =>
+          simp only [ho, hga, hgb, beq_iff_eq] at hu1 hu2
+          have hmm : orig.mapM (fun comps => comps.mapM (quantUV c cfg₁.format))
+              = orig.mapM (fun comps => comps.mapM (quantUV c cfg₂.format)) := by
+            apply mapM_option_congr
+            intro comps hc
+            obtain ⟨at', hat, hin⟩ := cornerVals_mem m _ _ orig ho comps hc
+            apply mapM_option_congr
+            intro v hv
+            exact huv htri at' hat comps hin v hv
+          rw [hmm, hu2] at hu1
+          simp at hu1
+          exact ⟨ga, rfl, by rw [hu1]⟩
+
+theorem selectWriters_format (f g : Format) (props : List WProp) (wu : Bool) (m : MeshVal α) :
+    selectWriters ⟨f, props, wu⟩ m = selectWriters ⟨g, props, wu⟩ m := rfl
+
+/-- little- and big-endian store the same image, whatever the type and value -/
+theorem quant_le_be (c : Coding α) (dim : Nat) (t : SType) (v : α) : quant c .le dim t v = quant c .be dim t v := by
+  cases h : encScalarBin c Format.le.endian t v with
+  | error e =>
+    have h' : ∃ e', encScalarBin c Format.be.endian t v = .error e' := by
+      cases t <;> simp_all [encScalarBin]
+    obtain ⟨e', h'⟩ := h'
+    simp [quant, h, h']
+  | ok bs =>
+    rw [quant_bin_some c .le (by decide) dim t v v bs h]
+    have h' : ∃ bs', encScalarBin c Format.be.endian t v = .ok bs' := by
+      cases t <;> simp_all [encScalarBin]
+    obtain ⟨bs', h'⟩ := h'
+    rw [quant_bin_some c .be (by decide) dim t v v bs' h']
+
+
+/-- the class on which the ASCII and the binary encodings store the same image of every value of the mesh.  It mirrors
+the known findings: every ASCII vertex scalar is parsed with bit size 32, so a `float` property agrees where the 32-bit
+parse of the printed text is the float32 image (for Go: every value but exact float32 half-way values, see `GoFloatText`),
+`double` and `int` properties agree only on values whose 32-bit parse is the value the binary reader delivers; the
+per-corner texture coordinates are float32 in the binary encodings and full-precision text in ASCII, so they agree on
+float32 values.  (8-bit SCALAR properties — the other known finding — are excluded by the ASCII claim stage `ClaimOKA`.) -/
+structure AgreeGuards (c : Coding α) (L : GoFloatText c) (props : List WProp) (wu : Bool) (m : MeshVal α) : Prop where
+  scalars : ∀ w ∈ selectWriters ⟨.ascii, props, wu⟩ m, comesBack w = true →
+    ∀ a ∈ m.attrs, a.dim = w.dim → a.name = w.attr → ∀ comps ∈ a.data, ∀ v ∈ comps,
+      (w.ty = .float ∧ L.imgF v = c.unf32 (c.f32 v)) ∨ w.ty = .uchar ∨
+      (w.ty = .double ∧ L.imgF v = c.unf64 (c.f64 v)) ∨
+      (w.ty = .int ∧ L.imgI v = c.ofInt (toInt32 (c.i32 v)))
+  uvs : m.topo = .triangle → ∀ a ∈ m.attrs, a.dim = 2 → a.name = texCoordAttr → ∀ comps ∈ a.data, ∀ v ∈ comps,
+    c.unf32 (c.f32 v) = v
+
+theorem find_mem' (m : MeshVal α) (dim : Nat) (name : Bytes) (a : Attr α) (h : m.find dim name = some a) :
+    a ∈ m.attrs ∧ a.dim = dim ∧ a.name = name := by
+  simp only [MeshVal.find] at h
+  have h1 := List.mem_of_find?_eq_some h
+  have h2 := List.find?_some h
+  simp at h2
+  exact ⟨h1, h2.1, h2.2⟩
+
+theorem quant_ascii_le (c : Coding α) (L : GoFloatText c) (dim : Nat) (t : SType) (v : α) (hr : L.inRange v)
+    (h : (t = .float ∧ L.imgF v = c.unf32 (c.f32 v)) ∨ t = .uchar ∨ (t = .double ∧ L.imgF v = c.unf64 (c.f64 v)) ∨
+      (t = .int ∧ L.imgI v = c.ofInt (toInt32 (c.i32 v)))) :
+    quant c .ascii dim t v = quant c .le dim t v := by
+  have hb : ∃ bs, encScalarBin c Format.le.endian t v = .ok bs := by
+    rcases h with ⟨rfl, _⟩ | rfl | ⟨rfl, _⟩ | ⟨rfl, _⟩ <;> simp [encScalarBin]
+  obtain ⟨bs, hb⟩ := hb
+  rw [quant_bin_some c .le (by decide) dim t v v bs hb]
+  rcases h with ⟨rfl, h⟩ | rfl | ⟨rfl, h⟩ | ⟨rfl, h⟩
+  · rw [quant_ascii_some c L dim _ (by decide) v hr]; simp [quantA, quantBin, h]
+  · rw [quant_ascii_some c L dim _ (by decide) v hr]; rfl
+  · rw [quant_ascii_some c L dim _ (by decide) v hr]; simp [quantA, quantBin, h]
+  · rw [quant_ascii_some c L dim _ (by decide) v hr]; simp [quantA, quantBin, h]
 
 
 end PlyAscii
